@@ -406,7 +406,7 @@ bool dtoa_fixed(double val, char decimal_point, Result& result, std::false_type)
         return true;
     }
 
-    char buffer[100];
+    char buffer[400]; // "%.17f" of 1.8e308 needs 309 + 1 + 17 characters
     int precision = std::numeric_limits<double>::digits10;
     int length = snprintf(buffer, sizeof(buffer), "%1.*f", precision, val);
     if (length < 0)
@@ -503,7 +503,7 @@ public:
     {
         std::size_t count = 0;
 
-        char number_buffer[200];
+        char number_buffer[512]; // "%.127f" of 1.8e308 needs 309 + 1 + 127 characters
         int length = 0;
 
         switch (float_format_)
